@@ -198,6 +198,19 @@ static void ev_sb(sb_t *s)
   fflush(stdout);
 }
 
+/* For trace modules linked into a driver next to sim.c (e.g. harness/chan01_trace.c, which
+ * wraps library-internal call sites): print an event line of the current case. */
+void sim_ev(const char *fmt, ...)
+{
+  va_list ap;
+  printf("%ld ", g_case);
+  va_start(ap, fmt);
+  vprintf(fmt, ap);
+  va_end(ap);
+  putchar('\n');
+  fflush(stdout);
+}
+
 static int hexval(int c)
 {
   if (c >= '0' && c <= '9') {
@@ -461,6 +474,7 @@ typedef struct {
   int             serverstatecb;
   int             qdump;      /* qdump=1: log QSTATE */
   char           *qdump_last; /* last QSTATE text printed */
+  int             lctrace;       /* lctrace=1: print LC events (sim_ev users, query ids) */
   /* alloc */
   int             alloc_report;
   size_t          opno;
@@ -481,6 +495,12 @@ static ares_uint64_t rng_next(void)
   return x * 2685821657736338717ULL;
 }
 
+/* lctrace=1 in the case configuration */
+int sim_lctrace(void)
+{
+  return G.lctrace;
+}
+
 void __wrap_ares_tvnow(ares_timeval_t *now)
 {
   now->sec  = G.now_us / 1000000;
@@ -497,18 +517,25 @@ void __wrap_ares_rand_bytes(ares_rand_state *state, unsigned char *buf,
   }
 }
 
+int sim_lctrace(void);
+
 unsigned short __wrap_ares_generate_new_id(ares_rand_state *state)
 {
+  unsigned short id;
   (void)state;
   if (G.idlist_i < G.nidlist) {
     return G.idlist[G.idlist_i++];
   }
   if (G.idseq >= 0) {
-    unsigned short id = (unsigned short)(G.idseq & 0xFFFF);
-    G.idseq           = (G.idseq + 1) & 0xFFFF;
-    return id;
+    id      = (unsigned short)(G.idseq & 0xFFFF);
+    G.idseq = (G.idseq + 1) & 0xFFFF;
+  } else {
+    id = (unsigned short)(rng_next() >> 40);
   }
-  return (unsigned short)(rng_next() >> 40);
+  if (sim_lctrace()) {
+    sim_ev("LC TI %u", (unsigned int)id);
+  }
+  return id;
 }
 
 /* Optional (--wrap=ares_htable_hash_FNV1a --wrap=ares_htable_hash_FNV1a_casecmp):
@@ -4094,6 +4121,10 @@ static void parse_config(char *cfgtext, cfg_t *c)
     }
     if (strcmp(k, "serverstatecb") == 0 && isnum) {
       G.serverstatecb = v != 0;
+      continue;
+    }
+    if (strcmp(k, "lctrace") == 0 && isnum) {
+      G.lctrace = v != 0;
       continue;
     }
     if (strcmp(k, "tfo") == 0 && isnum) {
